@@ -67,7 +67,7 @@ fn s_step(ctx: &mut Ctx, b: &mut SparseBuilder, m: &mut SModel, op: &SOp, hist: 
             // Sequential sets; the first invalid one panics (documented) and ends the call.
             let mut all_ok = true;
             for v in vs { if m.accepts(*v) { m.apply(*v); } else { all_ok = false; break; } }
-            let got = guard(|| b.extend(vs.iter().copied())).is_ok();
+            let got = guard(|| b.extend(crate::gen::hinted(vs, vs.len() + m.values.len()))).is_ok();
             if got != all_ok { ctx.violation("sparse_builder.extend", format!("extend({:?}) {} in {}", vs, if got { "returned" } else { "panicked" }, hist())); return false; }
         },
         SOp::Convert => {
